@@ -159,14 +159,17 @@ Definition red_of (o : pobs) (n : node) : Q :=
 Definition all_red_defined (o : pobs) : bool := forallb (fun x => match p_red x with Some _ => true | None => false end) o.
 
 (* dit's atoms against the model's Moebius inversion of dit's own redundancies *)
-Definition pi_corr (k : nat) (o : pobs) : bool :=
+(* s scales the tolerance: decompositions whose atoms come out of a numerical optimisation (the incomplete ones) carry
+   its noise, of the order of dit's own consistency tolerance *)
+Definition pi_corr_s (s : Q) (k : nat) (o : pobs) : bool :=
   if all_red_defined o then
     let m := pis_list (red_of o) (sorted_nodes k) in
     forallb (fun x => match p_pi x, find (fun mv => node_eqb (fst mv) (p_node x)) m with
-                      | Some v, Some mv => qclose ((1#100000) * (1 + qabs (snd mv))) v (snd mv)
+                      | Some v, Some mv => qclose (s * (1#100000) * (1 + qabs (snd mv))) v (snd mv)
                       | None, _ => false
                       | _, None => false end) o
   else true.
+Definition pi_corr (k : nat) (o : pobs) : bool := pi_corr_s 1 k o.
 
 (* redundancy functions given by a value per source set *)
 Fixpoint qmin_list (l : list Q) : Q :=
